@@ -25,9 +25,13 @@ package filehandler
 // up to now.  The handler gives up on a tolerated error only when that run has lasted
 // longer than the configured tolerance (or the tolerance is zero) - so a source that
 // resumes within the tolerance is never abandoned, however many earlier pauses there were.
+// The second form of the clause measures the run up to the last read attempt itself (not up to
+// the return): the handler does not pause and then give up on the strength of an old answer.
 //@ define runStart(rd, j, k0, n) = forall(r, j, n, rdN(rd, r) == 0) && (j == k0 || rdN(rd, j - 1) > 0)
 //@ func (*Handler).Handle
 //@ spawns[C09,C13] HandleMessages
+// the RTCM handler is created for the caller's start time, instant and all (the week computation needs the time of day)
+//@ atcall[C17,C06] github.com/goblimey/go-ntrip/rtcm/handler.New /.*/: a0.ns == startTime.ns
 //@ requires handler != nil && reader != nil && handler.Config != nil
 //@ requires handler.MessageChan != nil && !closed(handler.MessageChan) && allocated(handler.MessageChan)
 //@ noterm the reader stage runs until its source fails for good (end of file beyond the tolerance or another error); that the source eventually does is a hypothesis of C09/C13
@@ -41,6 +45,7 @@ package filehandler
 //@ ensures[C13] gc("rdcalls", reader) > k0 && result == rdErr(reader, gc("rdcalls", reader) - 1)
 //@ ensures[C13] forall(k, k0, gc("rdcalls", reader) - 1, rdErr(reader, k) == nil || tolerated(rdErr(reader, k)))
 //@ ensures[C13,C09] tolerated(result) && tol > 0 ==> forall(j, k0, gc("rdcalls", reader), runStart(reader, j, k0, gc("rdcalls", reader)) ==> gc("clock", 0) - rdClock(reader, j) > tol)
+//@ ensures[C13,C09] tolerated(result) && tol > 0 ==> forall(j, k0, gc("rdcalls", reader), runStart(reader, j, k0, gc("rdcalls", reader)) ==> rdClock(reader, gc("rdcalls", reader) - 1) - rdClock(reader, j) > tol)
 //@ loop 1
 //@ invariant[C13,C09] forall(j, k0, gc("rdcalls", reader), rdClock(reader, j) <= gc("clock", 0))
 //@ invariant[C13,C09] timeOfFirstEOF != nil ==> gc("rdcalls", reader) > k0 && rdN(reader, gc("rdcalls", reader) - 1) == 0
